@@ -140,10 +140,13 @@ class RankSelection(SelectionFunction[T]):
         """
         random_value = randomness.next_float()
         bias = self.bias
-        return int(
+        index = int(
             len(population)
             * ((bias - sqrt(bias**2 - (4.0 * (bias - 1.0) * random_value))) / 2.0 / (bias - 1.0))
         )
+        # The quotient is below 1 mathematically, but for a small bias (e.g. 1.1) it
+        # rounds to exactly 1.0 when the random value is the largest float below 1.
+        return min(index, len(population) - 1)
 
 
 class TournamentSelection(SelectionFunction[T]):
